@@ -1238,3 +1238,180 @@ fn c09_get_expect_despite_method_awaits_100() {
     }
 }
 
+
+// ---------------------------------------------------------------- late 100 / header-less final head in RecvResponse
+
+/// sc: 0 late 100 while still expecting one | 1 a 100 when none is expected any more | 2 header-less 200
+fn c11_recv_response_case(sc: usize) {
+    let code: usize = kani::any();
+    kani::assume(code == if sc == 2 { 200 } else { 100 });
+    let (buf, head_len) = c11_bytes(1, code, false, false);
+    let extra = any_le(4);
+    let l = head_len + extra;
+    ph::script(1, 2, code, head_len, 0, 0);
+    let reasons = any_reasons(false, false);
+    let n0 = reasons_count(&reasons);
+    let holder = CallHolder::RecvResponse(ch::mk_call_in(3, 0, bh::mk_writer_none(), None, true));
+    let mut flow: Flow<(), RecvResponse> = mk_flow(mk_inner(holder, &reasons, false, sc == 0, None, None));
+    let r = flow.try_response(&buf[..l]);
+    match r {
+        Err(e) => {
+            core::mem::forget(e);
+            assert!(false, "C11/well-formed-head-is-not-an-error");
+        }
+        Ok((n, resp)) => {
+            assert!(n == head_len, "C05/consumes-exactly-the-head");
+            if sc == 0 {
+                assert!(resp.is_none(), "C11/late-100-is-skipped");
+                assert!(!flow.inner.await_100_continue, "C11/late-100-skipped-exactly-once");
+                assert!(!flow.can_proceed() && flow.inner.status.is_none(), "C11/late-100-leaves-the-flow-waiting-for-the-real-response");
+            } else {
+                assert!(resp.is_some(), "C11/second-100-or-final-head-is-returned");
+                assert!(flow.inner.status.map(|s| s.as_u16() as usize) == Some(code), "C09/status-recorded");
+                if sc == 2 {
+                    assert!(flow.can_proceed(), "C09/ready-iff-head-parsed");
+                }
+            }
+            assert!(flow.inner.close_reason.len() == n0, "C10/no-reason-without-condition");
+            core::mem::forget(resp);
+        }
+    }
+    kani::cover!(true, "cell-reached");
+    core::mem::forget(flow);
+}
+
+//@ props: C11 C10 C09
+//@ tier: quick
+//@ unwind: 6
+//@ unwindset: memcmp=12 c11_bytes=18 from_bytes=20 parse_hdr=20 FnvHasher=20
+//@ timeout: 1500
+//@ mem: 24
+//@ encodes: Flow::<RecvResponse>::try_response, Call::<RecvResponse>::try_response (100 handling, body-mode decision on a header-less head), HeaderMap lookups on an empty map
+//@ stubs_note: parser::try_parse_response::<128> replaced as a whole by the script environment (complete header-less head); native replay runs the real glue and httparse on the scenario's bytes
+//@ vars: concrete per harness: late 100 with the await flag still set | 100 with the flag cleared | header-less 200. Symbolic: trailing bytes 0..=4, recorded close reasons
+//@ bounds: header-less heads only (heads with fields need HeaderMap insertion: out of reach)
+//@ outside: heads with fields (Location, Connection: close, framing headers)
+//@ clause: a 100 that arrives after the body was sent is consumed exactly and skipped exactly once (the flag is cleared, no response is returned, the flow keeps waiting); a further 100 or a final head is returned as the response
+#[kani::proof]
+#[kani::stub(crate::parser::try_parse_response, crate::parser::verif_h::p_try_parse_response)]
+fn c11_recv_response_late_100_skipped() {
+    c11_recv_response_case(0);
+}
+
+//@ like: c11_recv_response_late_100_skipped
+#[kani::proof]
+#[kani::stub(crate::parser::try_parse_response, crate::parser::verif_h::p_try_parse_response)]
+fn c11_recv_response_second_100_returned() {
+    c11_recv_response_case(1);
+}
+
+//@ like: c11_recv_response_late_100_skipped
+#[kani::proof]
+#[kani::stub(crate::parser::try_parse_response, crate::parser::verif_h::p_try_parse_response)]
+fn c11_recv_response_headerless_200() {
+    c11_recv_response_case(2);
+}
+
+// ---------------------------------------------------------------- response heads with ONE field (scripted glue)
+
+/// Scenario bytes with one field from the parser_h menu: 0 location: /x | 1 connection: close | 2 content-length: 5
+fn c10_bytes_one_field(code: usize, hdr: usize) -> ([u8; 48], usize) {
+    let mut b = [b'N'; 48];
+    let head = b"HTTP/1.1 000 X\r\n";
+    let mut i = 0;
+    while i < 16 {
+        b[i] = head[i];
+        i += 1;
+    }
+    b[9] = b'0' + (code / 100) as u8;
+    b[10] = b'0' + ((code / 10) % 10) as u8;
+    b[11] = b'0' + (code % 10) as u8;
+    let f: &[u8] = match hdr {
+        0 => b"location: /x\r\n\r\n",
+        1 => b"connection: close\r\n\r\n",
+        _ => b"content-length: 5\r\n\r\n",
+    };
+    let mut j = 0;
+    while j < 24 {
+        if j < f.len() {
+            b[16 + j] = f[j];
+        }
+        j += 1;
+    }
+    (b, 16 + f.len())
+}
+
+fn c10_recv_response_field_case(code_fixed: usize, hdr: usize) {
+    let code: usize = kani::any();
+    kani::assume(code == code_fixed);
+    let (buf, head_len) = c10_bytes_one_field(code, hdr);
+    let extra = any_le(4);
+    let l = head_len + extra;
+    ph::script(1, 2, code, head_len, 1, hdr);
+    let reasons = any_reasons(true, false);
+    let n0 = reasons_count(&reasons);
+    let holder = CallHolder::RecvResponse(ch::mk_call_in(3, 0, bh::mk_writer_none(), None, true));
+    let mut flow: Flow<(), RecvResponse> = mk_flow(mk_inner(holder, &reasons, false, false, None, None));
+    let r = flow.try_response(&buf[..l]);
+    match r {
+        Err(e) => {
+            core::mem::forget(e);
+            assert!(false, "C05/well-formed-head-is-not-an-error");
+        }
+        Ok((n, resp)) => {
+            assert!(n == head_len, "C05/consumes-exactly-the-head");
+            assert!(resp.is_some(), "C05/complete-head-yields-a-response");
+            assert!(flow.can_proceed(), "C09/ready-iff-head-parsed");
+            assert!(flow.inner.status.map(|s| s.as_u16() as usize) == Some(code), "C09/status-recorded");
+            let server_close = hdr == 1;
+            assert!(flow.inner.close_reason.len() == n0 + server_close as usize, "C10/server-connection-close-recorded-iff-header-says-close");
+            if server_close {
+                assert!(flow.inner.close_reason[n0] == CloseReason::ServerConnectionClose, "C10/server-connection-close-reason-kind");
+            }
+            assert!(flow.inner.location.is_some() == (hdr == 0), "C14/location-recorded-iff-present");
+            let mode = flow.inner.call.body_mode();
+            if hdr == 2 {
+                assert!(matches!(mode, BodyMode::LengthDelimited(5)), "C06/exactly-content-length");
+            } else if code >= 300 && code <= 399 {
+                assert!(matches!(mode, BodyMode::NoBody), "C06/redirect-without-framing-header-has-no-body");
+            } else {
+                assert!(matches!(mode, BodyMode::CloseDelimited), "C06/otherwise-until-close");
+            }
+            core::mem::forget(resp);
+        }
+    }
+    kani::cover!(true, "cell-reached");
+    core::mem::forget(flow);
+}
+
+//@ props: C10 C06 C09
+//@ tier: off
+//@ unwind: 6
+//@ unwindset: memcmp=20 c10_bytes_one_field=26 from_bytes=20 parse_hdr=20 FnvHasher=20 extend_with=10 from_static=8 from_maybe_shared=20 to_str=8 3all5check=18 eq_ignore_ascii_case=18 from_ascii_bytes_radix=4 compare_lowercase_ascii=9
+//@ timeout: 2400
+//@ mem: 32
+//@ encodes: Flow::<RecvResponse>::try_response (status / last Location / ServerConnectionClose), Call::<RecvResponse>::try_response (header lookup closure, BodyReader::for_response), HeaderIterExt::has, HeaderMap get / get_all / iter on a one-entry map
+//@ stubs_note: parser::try_parse_response::<128> replaced as a whole by the script environment (complete head with one field from a menu); native replay runs the real glue and httparse on the scenario's bytes
+//@ vars: concrete per harness: (status, field) in {(200, connection: close), (302, location: /x), (200, content-length: 5)}. Symbolic: trailing bytes 0..=4, recorded earlier close reasons
+//@ bounds: heads with exactly one field
+//@ outside: several fields, other values (e.g. Connection: keep-alive, token lists), repeated Location
+//@ clause: the response head records its status; ServerConnectionClose is recorded iff the response carries Connection: close; Location is recorded iff present; the body mode follows the head's framing header
+#[kani::proof]
+#[kani::stub(crate::parser::try_parse_response, crate::parser::verif_h::p_try_parse_response)]
+fn c10_recv_response_connection_close() {
+    c10_recv_response_field_case(200, 1);
+}
+
+//@ like: c10_recv_response_connection_close
+#[kani::proof]
+#[kani::stub(crate::parser::try_parse_response, crate::parser::verif_h::p_try_parse_response)]
+fn c10_recv_response_location_302() {
+    c10_recv_response_field_case(302, 0);
+}
+
+//@ like: c10_recv_response_connection_close
+#[kani::proof]
+#[kani::stub(crate::parser::try_parse_response, crate::parser::verif_h::p_try_parse_response)]
+fn c10_recv_response_content_length_5() {
+    c10_recv_response_field_case(200, 2);
+}
